@@ -26,6 +26,11 @@ def reportSys : Sys := Sys.mk [loopOf Gen.notifyLdr, leaderEnv] kinds2
 def waitSys : Sys := Sys.mk [loopOf Gen.checkLeaderUpdate, leaderEnv2] kinds2
 def resultSys (c n : Nat) : Sys := Sys.mk [deliver "deliver" c n, receiver c] Gen.kinds
 
+def closingLoop : Proc :=
+  Proc.mk "state loop" [Node.choice [1, 2], Node.comm [⟨false, 5, 4⟩] none, Node.close 6 3, Node.comm [⟨false, 5, 4⟩] none,
+    Node.halt] 0
+def snapSys : Sys := Sys.mk [Gen.snapGoroutine, closingLoop] Gen.kinds
+
 def report (thm what : String) (y : Sys) (fuel : Nat) (P : State → Bool) : IO Bool := do
   match findBad y fuel P with
   | some tr =>
@@ -49,6 +54,10 @@ def main : IO UInt32 := do
       (resultSys 4 5) 2000 (enabledStrict (resultSys 4 5) · 0) then found := true
   if ← report "snapshot_result_never_blocks" "the snapshot goroutine can block for ever handing back its result"
       (resultSys 5 1) 2000 (enabledStrict (resultSys 5 1) · 0) then found := true
+  if ← report "snapshot_result_always_delivered" "the snapshot goroutine has returned but Raft.release waits for its result for ever (shutdown never finishes)"
+      snapSys 2000 (fun s => !halted snapSys s 0 || halted snapSys s 1 || enabledStrict snapSys s 1) then found := true
+  if ← report "snapshot_goroutine_never_blocks" "the snapshot goroutine blocks on its hand-over, or Go panics"
+      snapSys 2000 (fun s => enabledStrict snapSys s 0 && noPanic s) then found := true
   if Gen.notifyFlr_opaque ≠ [] ∨ Gen.notifyLdr_opaque ≠ [] ∨ Gen.checkLeaderUpdate_opaque ≠ ["reset"] then
     IO.println s!"COUNTEREXAMPLE closed_skeletons a target now calls something that reaches a channel operation outside its skeleton: notifyFlr {Gen.notifyFlr_opaque} notifyLdr {Gen.notifyLdr_opaque} checkLeaderUpdate {Gen.checkLeaderUpdate_opaque}"
     found := true
